@@ -45,11 +45,9 @@ def walk (evs : List Event) (r : Req) : List Obs → (fed : Nat) → (hp : Bool)
     | .rcf => (fed ≥ r.headLen + r.n) && walk evs r l fed hp none
     | _ => walk evs r l fed hp none
 
-def appCloses (sc : Scenario) : Bool :=
-  let cl (ops : List ApiOp) := ops.any fun o => match o with
-    | .close => true | .err _ _ => true | .redir _ _ => true | .json _ _ => true | _ => false
-  cl sc.app.onHp || cl sc.app.onRr || cl sc.app.onRcf || cl sc.app.onBw || cl sc.app.onDc ||
-  sc.events.any fun e => match e with | .api o => cl [o] | .peerClose => true | _ => false
+/-- the connection was ended (by the application, a handler or the peer) during the history -/
+def ended (sc : Scenario) (obs : List Obs) : Bool :=
+  obs.any Obs.isTc || sc.events.any fun e => match e with | .peerClose => true | _ => false
 
 /-- scenario shape: the Socket is created first, then the stream is fed in segments; the reader
     uses `read n`, `readAll` and `avail` (the latter always directly followed by `readAll`). -/
@@ -61,7 +59,7 @@ def holds (env : Env) (sc : Scenario) (obs : List Obs) : Bool :=
     Obs.countP Obs.isHp obs ≤ 1 && Obs.countP Obs.isRcf obs ≤ 1 &&
     walk sc.events r obs 0 false none &&
     -- left to run with a reader that drains at the end: everything, and both notifications
-    (if !appCloses sc && r.rest.length ≥ r.n &&
+    (if !ended sc obs && r.rest.length ≥ r.n &&
         (match sc.events.getLast? with | some (.api .readAll) => true | _ => false)
      then Obs.reads obs == entitled r && Obs.countP Obs.isHp obs == 1 && Obs.countP Obs.isRcf obs == 1
      else true)
